@@ -33,7 +33,12 @@ func ParseMessageExpression(rawExpression string) Message {
 
 	// find variables
 	re := regexp.MustCompile(`\{\{\s*([\w-]+\.[\w-]+)\s*}}`)
-	for _, v := range re.FindAllStringSubmatch(rawExpression, -1) {
+	matches := re.FindAllStringSubmatch(rawExpression, -1)
+	if len(matches) > 0 {
+		// the expression becomes a format string: percent signs of the message itself must stay literal
+		expression = strings.ReplaceAll(expression, "%", "%%")
+	}
+	for _, v := range matches {
 		expression = strings.ReplaceAll(expression, v[0], "%v") // replace variable by template string variable
 		variables = append(variables, v[1])
 	}
